@@ -271,6 +271,15 @@ type (
 		Inner
 		X int `json:"-"`
 	}
+	// zero-length arrays are always "empty" for omitempty
+	ZeroArr struct {
+		A [0]int    `json:"a,omitempty"`
+		B [0]string `json:",omitempty"`
+		C [0]Inner  `json:"c"`
+		D *[0]bool  `json:"d,omitempty"`
+		E [1]int    `json:"e,omitempty"`
+		N int
+	}
 	// the same JSON name at depth 1 (through Inner2) and depth 2 (through Mid.Inner)
 	DepthConflict struct {
 		Mid
@@ -289,7 +298,7 @@ func Catalog() []T {
 		Inner{}, EmbVal{}, EmbPtr{}, Mid{}, Emb2{}, Emb2Ptr{}, ShadowAfter{}, ShadowBefore{}, Collide{}, CollideTagWins{}, EmbTagged{}, EmbTaggedPtr{}, EmbNamedInt{},
 		SameLevel{}, SameLevelMixed{}, EmbHidden{}, Twice{}, Ints{}, Ptrs{}, Opt{}, NamedStruct{}, &NamedStruct{}, []NamedStruct{}, map[string]NamedStruct{},
 		NamedSlice{}, NamedMap{}, NamedU8(0), NamedF32(0), MyInt(0), MyStr(""), MyBool(false), MyFloat(0), MySlice{}, MyMap{}, Described{},
-		NoFields{}, EmptyS{}, HoldsEmpty{}, SameTag{}, TopOver{}, MidOver{}, TagForms{}, ShadowGoName{}, ShadowGoNameDash{}, DepthConflict{}, []ShadowGoName{}, []EmbVal{}, map[string]*EmbPtr{}, [2]Opt{}, struct {
+		NoFields{}, EmptyS{}, HoldsEmpty{}, SameTag{}, TopOver{}, MidOver{}, TagForms{}, ZeroArr{}, ShadowGoName{}, ShadowGoNameDash{}, DepthConflict{}, []ShadowGoName{}, []EmbVal{}, map[string]*EmbPtr{}, [2]Opt{}, struct {
 			A EmbVal
 			B *ShadowAfter
 		}{},
